@@ -231,7 +231,7 @@ func c17wExec(t *testing.T, r *kit.Run) func(c17wProg) kit.Outcome {
 		if obs.kept > 0 {
 			o.Classes = append(o.Classes, "master-stayed")
 		}
-		if fail != "" {
+		if fail != "" && res.Viol == nil {
 			o.Skip = true
 			fmt.Println("C17 bubble failure (not judged here):", firstLine(fail))
 			return o
